@@ -30,3 +30,8 @@ package reference
 //@ contract (reference.Origins).Match (ro, localPath, target, targetPath) (result)
 //@   loop 1 iter [C11] implies(len(origins) > old(len(origins)), (typeis(refOrigin, "reference.LocalOrigin") && localPath.Equals(targetPath)) || (typeis(refOrigin, "reference.PathOrigin") && as(refOrigin, "reference.PathOrigin").TargetPath.Equals(targetPath)))
 //@   assert before (reference.Origins).Match#1 : [C11] arg1 == localPath && arg3 == targetPath
+
+// ---- C10: an origin carries the range of exactly the traversal it was made from; self.* only where enabled
+//@ contract reference.TraversalToLocalOrigin (traversal, cons, allowSelfRefs) (result, ok)
+//@   ensures [C10] implies(ok, result.Range == traversal.SourceRange() && result.Constraints == cons)
+//@   ensures [C10] implies(ok && !traversal.IsRelative() && traversal.RootName() == "self", allowSelfRefs)
